@@ -20,6 +20,7 @@ structure Live (c : Client) : Prop where
   nodup : c.accts.Nodup
   chaos : c.chaos = false
   fo : c.failOpen = 0
+  fb : c.failBatch = 0
 
 /-- what a successful (possibly nested-reconnecting) step guarantees -/
 structure Post (c c' : Client) (extra : List Nat) : Prop where
@@ -36,6 +37,7 @@ structure Aborted (c c' : Client) (extra : List Nat) : Prop where
   perm : List.Perm c'.accts (c.accts ++ extra)
   chaos : c'.chaos = false
   fo : c'.failOpen = 0
+  fb : c'.failBatch = 0
   tr : FaultsOnly c'.beh
   len : c'.beh.length < c.beh.length
   str : c.streams.length ≤ c'.streams.length
@@ -56,18 +58,19 @@ theorem setCur_fields (c : Client) (f : Stream → Stream) :
     (c.setCur f).refuse = c.refuse ∧ (c.setCur f).attempts = c.attempts ∧ (c.setCur f).chaos = c.chaos ∧
     (c.setCur f).streams.length = c.streams.length ∧
     (c.setCur f).isOpen = c.isOpen ∧ (c.setCur f).mainErrs = c.mainErrs ∧ (c.setCur f).handlerRes = c.handlerRes ∧
-    (c.setCur f).failOpen = c.failOpen := by
+    (c.setCur f).failOpen = c.failOpen ∧ (c.setCur f).failBatch = c.failBatch := by
   unfold Client.setCur; split <;> simp_all
 
 theorem closeStream_fields (c : Client) :
     c.closeStream.accts = c.accts ∧ c.closeStream.beh = c.beh ∧ c.closeStream.refuse = c.refuse ∧
     c.closeStream.attempts = c.attempts ∧ c.closeStream.chaos = c.chaos ∧
     c.closeStream.streams.length = c.streams.length ∧ c.closeStream.mainErrs = c.mainErrs ∧
-    c.closeStream.handlerRes = c.handlerRes ∧ c.closeStream.failOpen = c.failOpen := by
+    c.closeStream.handlerRes = c.handlerRes ∧ c.closeStream.failOpen = c.failOpen ∧
+    c.closeStream.failBatch = c.failBatch := by
   unfold Client.closeStream
   split
-  · obtain ⟨h1, h2, h3, h4, h5, h6, _, h8, h9, h10⟩ := setCur_fields c (fun s => { s with alive := false })
-    exact ⟨h1, h2, h3, h4, h5, h6, h8, h9, h10⟩
+  · obtain ⟨h1, h2, h3, h4, h5, h6, _, h8, h9, h10, h11⟩ := setCur_fields c (fun s => { s with alive := false })
+    exact ⟨h1, h2, h3, h4, h5, h6, h8, h9, h10, h11⟩
   · simp
 
 theorem filter_not_contains_self {l rest : List Nat} (h : ∀ x ∈ rest, x ∉ l) :
@@ -107,13 +110,13 @@ theorem loop_of_P (pick : List Nat → List Nat) (n : Nat) (hP : PHs pick n) :
       refine ⟨c2, r2, by simp only [Client.resubLoop, h1]; exact h2, ?_⟩
       rcases o2 with ⟨rfl, p2⟩ | ⟨rfl, a2⟩
       · exact Or.inl ⟨rfl, ⟨p2.live, hcomp _ p2.perm p1.perm, p2.tr, le_trans p2.len p1.len, le_trans p1.str p2.str⟩⟩
-      · exact Or.inr ⟨rfl, ⟨a2.nodup, hcomp _ a2.perm p1.perm, a2.chaos, a2.fo, a2.tr,
+      · exact Or.inr ⟨rfl, ⟨a2.nodup, hcomp _ a2.perm p1.perm, a2.chaos, a2.fo, a2.fb, a2.tr,
           lt_of_lt_of_le a2.len p1.len, le_trans p1.str a2.str⟩⟩
     · -- the notice hit this handshake: keepSubscriptions(rest), return the error
       have hk : keepAccts c1.accts rest = c1.accts ++ rest := by
         unfold keepAccts; rw [filter_not_contains_self (hdis1 a1.perm)]
       refine ⟨{ c1 with accts := keepAccts c1.accts rest }, .errShutdown,
-        by simp [Client.resubLoop, h1, Variant.fixed], Or.inr ⟨rfl, ⟨?_, ?_, a1.chaos, a1.fo, a1.tr, a1.len, a1.str⟩⟩⟩
+        by simp [Client.resubLoop, h1, Variant.fixed], Or.inr ⟨rfl, ⟨?_, ?_, a1.chaos, a1.fo, a1.fb, a1.tr, a1.len, a1.str⟩⟩⟩
       · show (keepAccts c1.accts rest).Nodup
         rw [hk]
         exact List.nodup_append.mpr ⟨a1.nodup, hnd'.2, by
@@ -124,18 +127,19 @@ theorem loop_of_P (pick : List Nat → List Nat) (n : Nat) (hP : PHs pick n) :
 /-- one `reconnect` attempt from any state: either everything is subscribed on a live new stream, or a shutdown
 notice aborted it with the whole map kept -/
 theorem once_of_P (pick : List Nat → List Nat) (hpick : ∀ l, List.Perm (pick l) l) (n : Nat) (hP : PHs pick n)
-    (c : Client) (hnd : c.accts.Nodup) (hch : c.chaos = false) (hfo : c.failOpen = 0) (ht : FaultsOnly c.beh)
-    (hlen : c.beh.length ≤ n) :
+    (c : Client) (hnd : c.accts.Nodup) (hch : c.chaos = false) (hfo : c.failOpen = 0) (hfb : c.failBatch = 0)
+    (ht : FaultsOnly c.beh) (hlen : c.beh.length ≤ n) :
     ∃ c1 r, c.reconnectOnce Variant.fixed pick (hsF pick n) = (c1, r) ∧
       ((r = .ok ∧ Live c1 ∧ List.Perm c1.accts c.accts ∧ FaultsOnly c1.beh ∧ c1.beh.length ≤ c.beh.length ∧
           c.streams.length < c1.streams.length) ∨
        (r = .errShutdown ∧ c1.accts.Nodup ∧ List.Perm c1.accts c.accts ∧ c1.chaos = false ∧ c1.failOpen = 0 ∧
-          FaultsOnly c1.beh ∧ c1.beh.length < c.beh.length ∧ c.streams.length < c1.streams.length)) := by
-  obtain ⟨ha, hb, _, _, hc, hsl, _, _, hf⟩ := closeStream_fields c
+          c1.failBatch = 0 ∧ FaultsOnly c1.beh ∧ c1.beh.length < c.beh.length ∧ c.streams.length < c1.streams.length)) := by
+  obtain ⟨ha, hb, _, _, hc, hsl, _, _, hf, hfb'⟩ := closeStream_fields c
   have hf0 : c.closeStream.failOpen = 0 := by rw [hf]; exact hfo
+  have hfb0 : c.closeStream.failBatch = 0 := by rw [hfb']; exact hfb
   let c0 : Client := { c.closeStream.connectStream with accts := [] }
   have hl0 : Live c0 := by
-    refine ⟨?_, ?_, ?_, ?_, ?_, ?_, ?_⟩ <;> simp [c0, Client.connectStream, Client.cur, hc, hch, hf0]
+    refine ⟨?_, ?_, ?_, ?_, ?_, ?_, ?_, ?_⟩ <;> simp [c0, Client.connectStream, Client.cur, hc, hch, hf0, hfb0]
   have hbeh0 : c0.beh = c.beh := by simp [c0, Client.connectStream, hb, hf0]
   have hstr0 : c0.streams.length = c.streams.length + 1 := by simp [c0, Client.connectStream, hf0, hsl]
   have hord : (pick c.accts).Nodup := (hpick _).nodup_iff.mpr hnd
@@ -144,9 +148,11 @@ theorem once_of_P (pick : List Nat → List Nat) (hpick : ∀ l, List.Perm (pick
   have e : (c.closeStream.connectStream).accts = c.accts := by simp [Client.connectStream, ha, hf0]
   have eo : ¬ ((!(c.closeStream.connectStream).isOpen) = true) := by simp [Client.connectStream, hf0]
   refine ⟨c1, r, ?_, ?_⟩
-  · unfold Client.reconnectOnce
+  · have eb : ¬ ((c.closeStream.connectStream.failBatch != 0) = true) := by
+      simp [Client.connectStream, hf0, hfb0]
+    unfold Client.reconnectOnce
     dsimp only
-    rw [if_neg eo, e]
+    rw [if_neg eo, if_neg eb, e]
     exact h
   · have pc : ∀ l : List Nat, List.Perm l (c0.accts ++ pick c.accts) → List.Perm l c.accts := by
       intro l p
@@ -154,35 +160,35 @@ theorem once_of_P (pick : List Nat → List Nat) (hpick : ∀ l, List.Perm (pick
       exact p.trans (hpick _)
     rcases o with ⟨rfl, p⟩ | ⟨rfl, a1⟩
     · exact Or.inl ⟨rfl, p.live, pc _ p.perm, p.tr, by simpa [hbeh0] using p.len, by have := p.str; omega⟩
-    · exact Or.inr ⟨rfl, a1.nodup, pc _ a1.perm, a1.chaos, a1.fo, a1.tr, by simpa [hbeh0] using a1.len,
+    · exact Or.inr ⟨rfl, a1.nodup, pc _ a1.perm, a1.chaos, a1.fo, a1.fb, a1.tr, by simpa [hbeh0] using a1.len,
         by have := a1.str; omega⟩
 
 /-- `HandleServerShutdown`, given the handshake statement at the same depth: whatever state the old stream is in, and
 however many shutdown notices make it start over, it ends with a live stream carrying every account of the map
 exactly once -/
 theorem hss_of_P (pick : List Nat → List Nat) (hpick : ∀ l, List.Perm (pick l) l) (n : Nat) (hP : PHs pick n) :
-    ∀ (fuel : Nat) (c : Client), c.accts.Nodup → c.chaos = false → c.failOpen = 0 → FaultsOnly c.beh →
-      c.beh.length ≤ n → c.beh.length ≤ fuel →
+    ∀ (fuel : Nat) (c : Client), c.accts.Nodup → c.chaos = false → c.failOpen = 0 → c.failBatch = 0 →
+      FaultsOnly c.beh → c.beh.length ≤ n → c.beh.length ≤ fuel →
       ∃ c', c.handleShutdown Variant.fixed pick (hsF pick n) fuel = (c', .ok) ∧ Live c' ∧
         List.Perm c'.accts c.accts ∧ FaultsOnly c'.beh ∧ c'.beh.length ≤ c.beh.length ∧
         c.streams.length < c'.streams.length := by
   intro fuel
   induction fuel with
   | zero =>
-    intro c hnd hch hfo ht hlen hfu
-    obtain ⟨c1, r, honce, o⟩ := once_of_P pick hpick n hP c hnd hch hfo ht hlen
-    rcases o with ⟨rfl, hl, hp, ht1, hl1, hs1⟩ | ⟨rfl, _, _, _, _, _, hl1, _⟩
+    intro c hnd hch hfo hfb ht hlen hfu
+    obtain ⟨c1, r, honce, o⟩ := once_of_P pick hpick n hP c hnd hch hfo hfb ht hlen
+    rcases o with ⟨rfl, hl, hp, ht1, hl1, hs1⟩ | ⟨rfl, _, _, _, _, _, _, hl1, _⟩
     · exact ⟨c1, by simp [Client.handleShutdown, honce], hl, hp, ht1, hl1, hs1⟩
     · omega
   | succ f ih =>
-    intro c hnd hch hfo ht hlen hfu
-    obtain ⟨c1, r, honce, o⟩ := once_of_P pick hpick n hP c hnd hch hfo ht hlen
-    rcases o with ⟨rfl, hl, hp, ht1, hl1, hs1⟩ | ⟨rfl, hnd1, hp1, hch1, hfo1, ht1, hl1, hs1⟩
+    intro c hnd hch hfo hfb ht hlen hfu
+    obtain ⟨c1, r, honce, o⟩ := once_of_P pick hpick n hP c hnd hch hfo hfb ht hlen
+    rcases o with ⟨rfl, hl, hp, ht1, hl1, hs1⟩ | ⟨rfl, hnd1, hp1, hch1, hfo1, hfb1, ht1, hl1, hs1⟩
     · exact ⟨c1, by simp [Client.handleShutdown, honce], hl, hp, ht1, hl1, hs1⟩
     · -- the reader of the new stream closed it and marked the re-connect dirty: start over
-      obtain ⟨ga, gb, _, _, gc, gsl, _, _, gf⟩ := closeStream_fields c1
+      obtain ⟨ga, gb, _, _, gc, gsl, _, _, gf, gfb⟩ := closeStream_fields c1
       obtain ⟨c', h, hl', hp', ht', hlen', hs'⟩ := ih c1.closeStream (by rw [ga]; exact hnd1) (by rw [gc]; exact hch1)
-        (by rw [gf]; exact hfo1) (by rw [gb]; exact ht1) (by rw [gb]; omega) (by rw [gb]; omega)
+        (by rw [gf]; exact hfo1) (by rw [gfb]; exact hfb1) (by rw [gb]; exact ht1) (by rw [gb]; omega) (by rw [gb]; omega)
       refine ⟨c', ?_, hl', ?_, ht', ?_, ?_⟩
       · rw [Client.handleShutdown, honce]
         simpa [Variant.fixed] using h
@@ -230,7 +236,7 @@ theorem hs_ok_post (c : Client) (a : Nat) (hl : Live c) (ha : a ∉ c.accts) (ht
   have hp : List.Perm s.subs c.accts := by simpa [Client.cur, hs] using hl.perm
   have hsu : s.success = s.subs := by simpa [Client.cur, hs] using hl.succ
   have hal : s.alive = true := by simpa [Client.cur, hs] using hl.alive
-  refine ⟨⟨?_, ?_, ?_, ?_, ?_, ?_, ?_⟩, ?_, ?_, ?_, ?_⟩
+  refine ⟨⟨?_, ?_, ?_, ?_, ?_, ?_, ?_, ?_⟩, ?_, ?_, ?_, ?_⟩
   · simp [Client.setCur, hs, hl.isOpen]
   · simp [Client.setCur, hs, Client.cur, hal]
   · simp only [Client.setCur, hs, Client.cur, List.headD_cons]; exact List.Perm.append_right _ hp
@@ -240,6 +246,7 @@ theorem hs_ok_post (c : Client) (a : Nat) (hl : Live c) (ha : a ∉ c.accts) (ht
       intro x hx y hy; simp at hy; subst hy; intro e; subst e; exact ha hx⟩
   · simp [Client.setCur, hs, hl.chaos]
   · simp [Client.setCur, hs, hl.fo]
+  · simp [Client.setCur, hs, hl.fb]
   · simp [Client.setCur, hs]
   · simp only [Client.setCur, hs]
     intro b hb; exact ht b (List.mem_of_mem_tail hb)
@@ -267,9 +274,9 @@ theorem PHs_all (pick : List Nat → List Nat) (hpick : ∀ l, List.Perm (pick l
         intro x hx y hy; simp at hy; subst hy; intro e; subst e; exact ha hx⟩
     -- the state handed to the inline reconnect in the three transport-error cases
     have inl : ∀ c2 : Client, c2.accts = c.accts ++ [a] → c2.beh = c.beh.tail → c2.chaos = false →
-        c2.failOpen = 0 → c.streams.length ≤ c2.streams.length → c.beh ≠ [] →
+        c2.failOpen = 0 → c2.failBatch = 0 → c.streams.length ≤ c2.streams.length → c.beh ≠ [] →
         ∃ c', c2.handleShutdown Variant.fixed pick (hsF pick m) (m + 1) = (c', .ok) ∧ Post c c' [a] := by
-      intro c2 h1 h2 h3 hf2 h4 hne
+      intro c2 h1 h2 h3 hf2 hfb2 h4 hne
       have hnd2 : c2.accts.Nodup := by rw [h1]; exact hnd1
       have ht2 : FaultsOnly c2.beh := by
         rw [h2]; intro b hb; exact ht b (List.mem_of_mem_tail hb)
@@ -279,7 +286,7 @@ theorem PHs_all (pick : List Nat → List Nat) (hpick : ∀ l, List.Perm (pick l
         | nil => exact absurd hb hne
         | cons b t => simp [hb] at hlen ⊢; omega
       obtain ⟨c', h, hl', hp', ht', hlen', hstr'⟩ :=
-        hss_of_P pick hpick m ih (m + 1) c2 hnd2 h3 hf2 ht2 hlen2 (by omega)
+        hss_of_P pick hpick m ih (m + 1) c2 hnd2 h3 hf2 hfb2 ht2 hlen2 (by omega)
       refine ⟨c', h, ⟨hl', by rw [← h1]; exact hp', ht', ?_, by omega⟩⟩
       rw [h2] at hlen'
       exact le_trans hlen' (by simp)
@@ -296,34 +303,37 @@ theorem PHs_all (pick : List Nat → List Nat) (hpick : ∀ l, List.Perm (pick l
       simp only [List.headD_cons, List.tail_cons]
       rcases hbt with rfl | rfl | rfl | rfl | rfl | rfl
       · exact ⟨_, .ok, rfl, Or.inl ⟨rfl, by simpa [hb] using hs_ok_post c a hl ha ht⟩⟩
-      · obtain ⟨h1, h2, _, _, h5, h6, _, _, _, h10⟩ :=
+      · obtain ⟨h1, h2, _, _, h5, h6, _, _, _, h10, h11⟩ :=
           setCur_fields ({ c with accts := c.accts ++ [a], beh := t } : Client) (fun s => { s with alive := false })
         obtain ⟨c', h, p⟩ := inl (({ c with accts := c.accts ++ [a], beh := t } : Client).failStream)
           h1 (by rw [Client.failStream, h2, hb]; rfl) (by rw [Client.failStream, h5]; exact hl.chaos)
-          (by rw [Client.failStream, h10]; exact hl.fo) (by rw [Client.failStream, h6]) hne
+          (by rw [Client.failStream, h10]; exact hl.fo) (by rw [Client.failStream, h11]; exact hl.fb)
+          (by rw [Client.failStream, h6]) hne
         exact ⟨c', .ok, by simpa [Variant.fixed, hsF] using h, Or.inl ⟨rfl, p⟩⟩
-      · obtain ⟨h1, h2, _, _, h5, h6, _, _, _, h10⟩ :=
+      · obtain ⟨h1, h2, _, _, h5, h6, _, _, _, h10, h11⟩ :=
           setCur_fields ({ c with accts := c.accts ++ [a], beh := t } : Client)
             (fun s => { s with subs := s.subs ++ [a], alive := false })
         obtain ⟨c', h, p⟩ := inl (({ c with accts := c.accts ++ [a], beh := t } : Client).setCur
             fun s => { s with subs := s.subs ++ [a], alive := false })
-          h1 (by rw [h2, hb]; rfl) (by rw [h5]; exact hl.chaos) (by rw [h10]; exact hl.fo) (by rw [h6]) hne
+          h1 (by rw [h2, hb]; rfl) (by rw [h5]; exact hl.chaos) (by rw [h10]; exact hl.fo)
+          (by rw [h11]; exact hl.fb) (by rw [h6]) hne
         exact ⟨c', .ok, by simpa [Variant.fixed, hsF] using h, Or.inl ⟨rfl, p⟩⟩
-      · obtain ⟨h1, h2, _, _, h5, h6, _, _, _, h10⟩ :=
+      · obtain ⟨h1, h2, _, _, h5, h6, _, _, _, h10, h11⟩ :=
           setCur_fields ({ c with accts := c.accts ++ [a], beh := t } : Client) (fun s => { s with alive := false })
         obtain ⟨c', h, p⟩ := inl (({ c with accts := c.accts ++ [a], beh := t } : Client).failStream)
           h1 (by rw [Client.failStream, h2, hb]; rfl) (by rw [Client.failStream, h5]; exact hl.chaos)
-          (by rw [Client.failStream, h10]; exact hl.fo) (by rw [Client.failStream, h6]) hne
+          (by rw [Client.failStream, h10]; exact hl.fo) (by rw [Client.failStream, h11]; exact hl.fb)
+          (by rw [Client.failStream, h6]) hne
         exact ⟨c', .ok, by simpa [hsF] using h, Or.inl ⟨rfl, p⟩⟩
       · -- shutdown notice instead of the challenge
-        refine ⟨_, .errShutdown, rfl, Or.inr ⟨rfl, ⟨hnd1, List.Perm.refl _, hl.chaos, hl.fo, htt, ?_, le_refl _⟩⟩⟩
+        refine ⟨_, .errShutdown, rfl, Or.inr ⟨rfl, ⟨hnd1, List.Perm.refl _, hl.chaos, hl.fo, hl.fb, htt, ?_, le_refl _⟩⟩⟩
         simp [hb]
       · -- shutdown notice instead of the final answer
-        obtain ⟨h1, h2, _, _, h5, h6, _, _, _, h10⟩ :=
+        obtain ⟨h1, h2, _, _, h5, h6, _, _, _, h10, h11⟩ :=
           setCur_fields ({ c with accts := c.accts ++ [a], beh := t } : Client)
             (fun s => { s with subs := s.subs ++ [a] })
         refine ⟨_, .errShutdown, rfl, Or.inr ⟨rfl, ⟨by rw [h1]; exact hnd1, by rw [h1], by rw [h5]; exact hl.chaos,
-          by rw [h10]; exact hl.fo, by rw [h2]; exact htt, ?_, by rw [h6]⟩⟩⟩
+          by rw [h10]; exact hl.fo, by rw [h11]; exact hl.fb, by rw [h2]; exact htt, ?_, by rw [h6]⟩⟩⟩
         rw [h2]; simp [hb]
 
 end Pool.C18
